@@ -215,7 +215,7 @@ def _group(args):
                 st1 = dav.effective_status(r1)
                 fk = "+".join(feats) or "plain"
                 stats["outcomes"].add(("valid", typ, st1))
-                if st1 not in (201, 204):
+                if st1 not in (200, 201, 204):
                     vio("valid-body-refused:%s:%s" % (typ, st1), "a well-formed %s body (features %s) was answered %s %s" % (typ, fk, st1, r1.exc or ""), {"features": feats, "body": body})
                     continue
                 stats["valid_accepted"] += 1
@@ -244,7 +244,7 @@ def _group(args):
                 n1 = commit_count(s.root, coll)
                 g2 = s.req("GET", s.url(coll, name))
                 ok = True
-                if st2 not in (201, 204):
+                if st2 not in (200, 201, 204):
                     vio("reupload-refused:%s:%s" % (typ, st2), "uploading what the server serves was answered %s" % st2, {"features": feats, "served": served})
                     ok = False
                 else:
@@ -272,13 +272,13 @@ def _group(args):
                             up = up.replace(b"\r\n", b"\n").replace(b"\n", b"\r\n")
                         r4 = s.req("PUT", s.url(coll, name), {"Content-Type": ct}, up)
                         n_b = commit_count(s.root, coll)
-                        if dav.effective_status(r4) not in (201, 204) or r4.headers.get("etag") != g.headers.get("etag") or n_a != n_b:
+                        if dav.effective_status(r4) not in (200, 201, 204) or r4.headers.get("etag") != g.headers.get("etag") or n_a != n_b:
                             vio("reupload-of-report-data-not-a-noop:%s" % typ, "uploading the %s the multiget report serves answered %s, ETag %s (GET: %s), %d new commit(s)" % ("calendar-data" if typ == "ics" else "address-data", dav.effective_status(r4), r4.headers.get("etag"), g.headers.get("etag"), n_b - n_a), {"features": feats})
                             ok = False
                 # normalisation is idempotent: the served bytes stored elsewhere get the same etag
                 if typ == "ics":
                     r3 = s.req("PUT", s.url("c2", name), {"Content-Type": ct}, served)
-                    if dav.effective_status(r3) in (201, 204):
+                    if dav.effective_status(r3) in (200, 201, 204):
                         if r3.headers.get("etag") != g.headers.get("etag"):
                             vio("normalisation-not-idempotent:%s" % typ, "the served bytes get another ETag when stored in a fresh collection", {"features": feats})
                             ok = False
@@ -308,7 +308,7 @@ def _group(args):
                 plain = None
                 if body and not label.startswith(("ct[", "other-collection:")):
                     rp_ = s.req("PUT", s.url(coll, "plain-copy.txt"), {"Content-Type": "text/plain"}, body)
-                    if dav.effective_status(rp_) in (201, 204):
+                    if dav.effective_status(rp_) in (200, 201, 204):
                         plain = s.url(coll, "plain-copy.txt")
                 before = (s.listing(coll), dir_listing(s.root, coll) if tree else None, s.audit_tag(coll))
                 r1 = s.req("PUT", s.url(coll, name), {"Content-Type": ct}, body)
